@@ -65,6 +65,10 @@ EXTRA_FAMILIES = {
     "mix4b": ([["const"], ["mix4", 3, 1, 2, 0]], 4, (0.25, 3.0)),
     "mix4c": ([["mix4", 1, 0, 3, 2], ["lin"]], 4, (0.25, 3.0)),
     "mix4d": ([["mix4", 0, 1, 2, 3], ["const"]], 4, (0.25, 3.0)),
+    # five, six and seven nonlinear parameters (functions of different kinds, so that the basis stays well conditioned)
+    "p5": ([["exprate", 0], ["cos", 1], ["rat", 2], ["gauss", 3, 4]], 5, (0.25, 3.5)),
+    "p6": ([["exprate", 0], ["cos", 1], ["rat", 2], ["gauss", 3, 4], ["exprate", 5]], 6, (0.25, 3.5)),
+    "p7": ([["exprate", 0], ["cos", 1], ["rat", 2], ["gauss", 3, 4], ["expcos", 5, 6]], 7, (0.25, 3.5)),
     # many basis functions (16 / 24): one decay and a comb of parameter-free bumps
     "comb16": ([["exprate", 0]] + [["bump", j] for j in range(1, 16)], 1, (0.25, 1.5)),
     "comb24": ([["exprate", 0]] + [["bump", j] for j in range(1, 24)], 1, (0.25, 1.5)),
